@@ -72,7 +72,7 @@ def check_c19(ctx):
     #    Contains for every input, and every input is printed with the membership Layer P dictates
     both = [{"A": 2, "MAXR": 3, "MAXS": 1}, {"A": 3, "MAXR": 3, "MAXS": 0}] if q else \
            [{"A": 2, "MAXR": 3, "MAXS": 2}, {"A": 3, "MAXR": 3, "MAXS": 1}, {"A": 2, "MAXR": 4, "MAXS": 0}]
-    only = [] if q else [{"A": 4, "MAXR": 3, "MAXS": 0}, {"A": 5, "MAXR": 3, "MAXS": 0}]
+    only = [] if q else [{"A": 4, "MAXR": 3, "MAXS": 0}]
     cases = []
     for d in both:
         ctx.cov["constants"]["MCGen_IpDict_A%d_R%d_S%d" % (d["A"], d["MAXR"], d["MAXS"])] = d
@@ -82,7 +82,7 @@ def check_c19(ctx):
         model_only(ctx, "Util", "IpDict", "MC_IpDict.cfg", defines=d, timeout=2400)
     # 2. TLC-simulated larger dictionaries (more ranges than the exhaustive bound)
     sims = [({"A": 8, "MAXR": 6, "MAXS": 2}, 4000)] if q else \
-           [({"A": 8, "MAXR": 7, "MAXS": 3}, 60000), ({"A": 20, "MAXR": 10, "MAXS": 3}, 20000)]
+           [({"A": 8, "MAXR": 7, "MAXS": 3}, 40000), ({"A": 20, "MAXR": 10, "MAXS": 3}, 15000)]
     for d, num in sims:
         ctx.cov["constants"]["Gen_IpDict_sim_A%d_R%d_S%d" % (d["A"], d["MAXR"], d["MAXS"])] = dict(d, num=num)
         cases += ipdict_gen(ctx, d, "sim", num, depth=d["MAXR"] + d["MAXS"] + 3)
